@@ -135,7 +135,7 @@ func run(c *core.Ctx) {
 	c.SetExhaustive("all filenames up to the length bound over the 20-symbol alphabet x 8 dirs")
 	r := c.Rng("soup")
 	atoms := append([]string{"..", "../", "/..", "./", "/.", "//", "...", "etc", "passwd", "x.tmpl", "%2e%2e", "%2f", "..\\", "\\..", "C:", "a:b", ":/x", "\xff", "é"}, alpha...)
-	for i := 0; i < c.N(30000, 600000)/c.NShards; i++ {
+	for i := 0; i < c.N(300000, 3000000)/c.NShards; i++ {
 		f := gen.Soup(r, atoms, r.Intn(6))
 		d := dirs[r.Intn(len(dirs))]
 		if r.Intn(5) == 0 {
